@@ -38,10 +38,10 @@ func init() {
 		Run: runPanic,
 	})
 	core.Register(&core.Rule{
-		Name: "R-GLOBAL",
+		Name:   "R-GLOBAL",
 		Clause: "C13/C14/C01/C09: no hidden global state - every package-level variable is written only during package initialisation, and the library imports neither unsafe nor reflect.",
-		Min: 30,
-		Run: runGlobal,
+		Min:    30,
+		Run:    runGlobal,
 	})
 }
 
@@ -579,13 +579,13 @@ func runWriters(c *core.Ctx) []core.Obligation {
 
 // argumentContractPanics: panics that state a precondition on a caller-supplied argument.
 var argumentContractPanics = map[string]string{
-	"i and/or j is out of bounds":                       "Cell.Edge/Vertex style accessor contract on the index argument",
-	"labels must be non-negative":                       "CellIndex.Add contract on the label argument",
-	"too many ShapeIndexIteratorPos arguments":          "NewShapeIndexIterator variadic contract",
-	"unknown ShapeIndexIteratorPos value":               "NewShapeIndexIterator contract on the enum argument",
-	"unsupported n. Must be within [0,10].":             "nthDerivativeCoder constructor contract (internal callers pass a constant)",
-	"unsupported type for rounding epsilon":             "roundingEpsilon type-switch contract (internal callers pass float64/*big.Float)",
-	"FullLoops are not yet supported":                   "LaxLoopFromLoop documents that full loops are rejected",
+	"i and/or j is out of bounds":                                      "Cell.Edge/Vertex style accessor contract on the index argument",
+	"labels must be non-negative":                                      "CellIndex.Add contract on the label argument",
+	"too many ShapeIndexIteratorPos arguments":                         "NewShapeIndexIterator variadic contract",
+	"unknown ShapeIndexIteratorPos value":                              "NewShapeIndexIterator contract on the enum argument",
+	"unsupported n. Must be within [0,10].":                            "nthDerivativeCoder constructor contract (internal callers pass a constant)",
+	"unsupported type for rounding epsilon":                            "roundingEpsilon type-switch contract (internal callers pass float64/*big.Float)",
+	"FullLoops are not yet supported":                                  "LaxLoopFromLoop documents that full loops are rejected",
 	"encodeCompressed: vertices must be the same length as l.vertices": "internal contract between Polygon.encodeCompressed and Loop.encodeCompressed (lengths come from the same slice)",
 }
 
